@@ -29,6 +29,13 @@ var shard, nshards = 0, 1
 // mine reports whether the current case id belongs to this shard; generators always run (the PRNG
 // stream is the same in every shard), only the evaluation is divided.
 func mine() bool {
+	if id < 3 { // the constants and the two hand-written witness files: shard 0 (first replays)
+		if shard == 0 {
+			return true
+		}
+		id++
+		return false
+	}
 	if id%nshards == shard {
 		return true
 	}
